@@ -99,6 +99,16 @@ def rule_order(ctx: Ctx) -> RuleResult:
             if [ast.unparse(a) for a in d.args] != params or not cfg.must_pass(cfg.entry, dn, ends=[cfg.exit]):
                 rr.add(finding("ORDER", fo, d, f"{name}() delegates to self.{d.func.attr}() but not with its own arguments on every path", construct=f"{name}: delegation incomplete"))
             continue
+        # `if not self: return super().<name>(<own args>)` - the empty list has no focus to track and the call is handed
+        # to the built-in as it is (which validates the arguments): an accepted second call, on a path of its own
+        passthrough = []
+        for r in fo.own_nodes():
+            if isinstance(r, ast.Return) and r.value in sup and len(sup) > 1:
+                rn = nodes_where(cfg, lambda x, r=r: x is r.value)
+                tests = [t for t in cfg.nodes if t.kind == "test" and isinstance(t.ast, ast.UnaryOp) and isinstance(t.ast.op, ast.Not) and isinstance(t.ast.operand, ast.Name) and t.ast.operand.id == fo.self_name]
+                if rn and any(all(n_ not in ExcEngine._reach_without_edge(cfg, t, "T") for n_ in rn) for t in tests):
+                    passthrough.append(r.value)
+        sup = [c for c in sup if c not in passthrough]
         if len(sup) != 1:
             rr.add(finding("ORDER", fo, fo.node, f"{len(sup)} calls to super().{name}() in the override (exactly one expected): the list is edited twice or not at all, and the modified callback fires a different number of times", construct=f"{name}: {len(sup)} super calls"))
             continue
@@ -113,9 +123,14 @@ def rule_order(ctx: Ctx) -> RuleResult:
         if args != want:
             rr.add(finding("ORDER", fo, call, f"super().{name}({', '.join(args)}) does not pass the override's own arguments ({', '.join(want)}) through: the list ends up different from what a built-in list would hold", construct=f"{name}: arguments not passed through"))
         cn = nodes_where(cfg, lambda x: x is call)
+        for pt in passthrough:
+            pargs = [ast.unparse(a) for a in pt.args] + [f"{k.arg}={ast.unparse(k.value)}" if k.arg else f"**{ast.unparse(k.value)}" for k in pt.keywords]
+            if pargs != want:
+                rr.add(finding("ORDER", fo, pt, f"the empty-list call super().{name}({', '.join(pargs)}) does not pass the override's own arguments ({', '.join(want)}) through", construct=f"{name}: arguments not passed through"))
+        ptn = nodes_where(cfg, lambda x: any(x is pt for pt in passthrough))
         # every normal path passes the super call (except the table's early returns)
-        if not cfg.must_pass(cfg.entry, cn, ends=[cfg.exit]):
-            path = cfg.witness_path(cfg.entry, [cfg.exit], avoid=cn)
+        if not cfg.must_pass(cfg.entry, cn + ptn, ends=[cfg.exit]):
+            path = cfg.witness_path(cfg.entry, [cfg.exit], avoid=cn + ptn)
             rets = [n for n in (path or []) if n.kind == "return"]
             key = f"{name}:{norm(rets[0].stmt, 40) if rets else 'fallthrough'}"
             if key in C16_ORDER_AFTER:
@@ -141,7 +156,7 @@ def rule_order(ctx: Ctx) -> RuleResult:
             elif not all(cfg.dominated(c_, adj) for c_ in cn):
                 rr.add(finding("ORDER", fo, call, f"super().{name}() can run before the new focus was computed from the old contents", construct=f"{name}: list call before focus computation"))
         # exactly one wrapped method call on every path = the super call; no other self.<wrapped>() calls
-        others = [c for c in fo.own_nodes() if isinstance(c, ast.Call) and isinstance(c.func, ast.Attribute) and c.func.attr in wrapped and c is not call and ((isinstance(c.func.value, ast.Name) and c.func.value.id == fo.self_name) or c in _super_calls(fo))]
+        others = [c for c in fo.own_nodes() if isinstance(c, ast.Call) and isinstance(c.func, ast.Attribute) and c.func.attr in wrapped and c is not call and c not in passthrough and ((isinstance(c.func.value, ast.Name) and c.func.value.id == fo.self_name) or c in _super_calls(fo))]
         for o in others:
             rr.add(finding("ORDER", fo, o, f"`{norm(o, 50)}` is a second _call_modified-wrapped call inside {name}(): the modified callback fires more than once per call", construct=f"{name}: second wrapped call {norm(o, 40)}"))
     return rr
@@ -715,6 +730,8 @@ def run(ctx: Ctx):
 
 _F = "urwid/widget/monitored_list.py"
 MUTANTS = [
+    Mut("sort-empty-returns-early", "urwid/widget/monitored_list.py", "MonitoredFocusList.sort", "            # no focus to keep track of; the built-in list still validates the arguments\n            return super().sort(**kwargs)\n", "            return None\n", "ORDER|widget.monitored_list.MonitoredFocusList.sort|sort: path without list call"),
+    Mut("sort-empty-drops-arguments", "urwid/widget/monitored_list.py", "MonitoredFocusList.sort", "            return super().sort(**kwargs)\n", "            return super().sort()\n", "ORDER|widget.monitored_list.MonitoredFocusList.sort|sort: arguments not passed through"),
     Mut("focus-clamp-only-for-plain-slices", "urwid/widget/monitored_list.py", "MonitoredFocusList._adjust_focus_on_contents_modified", "        return min(focus, len(self) + num_new_items - num_removed - 1)\n", "        return focus\n", "BOUND|widget.monitored_list.MonitoredFocusList._adjust_focus_on_contents_modified|computed focus returned unclamped"),
     Mut("twin-focus-clamp-assigned-then-returned", "urwid/widget/monitored_list.py", "MonitoredFocusList._adjust_focus_on_contents_modified", "        return min(focus, len(self) + num_new_items - num_removed - 1)\n", "        focus = min(focus, len(self) + num_new_items - num_removed - 1)\n        return focus\n", twin=True),
     Mut("extend-passes-consumed-iterator", "urwid/widget/monitored_list.py", "MonitoredFocusList.extend", "        items = list(items)  # any iterable may be given, also a one-pass iterator\n        focus = self._adjust_focus_on_contents_modified(slice(len(self), len(self)), items)", "        new_items = list(items)  # any iterable may be given, also a one-pass iterator\n        focus = self._adjust_focus_on_contents_modified(slice(len(self), len(self)), new_items)", "KIND|widget.monitored_list.MonitoredFocusList.extend|extend: list call gets the raw iterable"),
